@@ -5,6 +5,7 @@
 //! `harness prop  < cases`  — evaluates the property itself on the implementation.
 mod codec;
 mod frame;
+mod timing;
 mod util;
 
 use std::io::{self, BufRead, Write};
@@ -47,11 +48,13 @@ fn main() {
 fn dispatch_impl(toks: &[&str]) -> String {
     None.or_else(|| frame::dispatch_impl(toks))
         .or_else(|| codec::dispatch_impl(toks))
+        .or_else(|| timing::dispatch_impl(toks))
         .unwrap_or_else(|| "bad-request".to_owned())
 }
 
 fn dispatch_prop(toks: &[&str]) -> String {
     None.or_else(|| frame::dispatch_prop(toks))
         .or_else(|| codec::dispatch_prop(toks))
+        .or_else(|| timing::dispatch_prop(toks))
         .unwrap_or_else(|| "SKIP no-oracle".to_owned())
 }
